@@ -683,6 +683,9 @@ def model_specs(draw, profile=None):
                 pr["cost"] = {"t": [f, f + g.pick([1, 2]) * dt], "v": [pr["cost"]["v"][0], g.fl(0.1, 500.0)]}
                 g.labels.add("prog:unit-cost-time-varying")
             pr["per_year"] = g.coin(0.4)
+            if not pr["per_year"] and g.coin(0.3):
+                pr["legacy_units"] = True
+                g.labels.add("prog:legacy-one-off-units")
             if g.coin(0.3):
                 pr["cap"] = {"t": [y0], "v": [g.pick([0.0, 1.0, 50.0, 1e4])]}
                 pr["cap_per_year"] = g.coin(0.5)
